@@ -236,6 +236,9 @@ class ReedMullerCodeEncoder(LinearBlockCodeEncoder):
                 - Decoded message(s)
                 - Syndrome (difference between closest valid codeword and received word)
         """
+        if x.shape[-1] != self.code_length:
+            raise ValueError(f"Last dimension size {x.shape[-1]} must equal the code length {self.code_length}")
+
         # Make input a batch
         if x.dim() == 1:
             y2d = x.unsqueeze(0)
